@@ -113,6 +113,32 @@ def _rules_core(repo, tier):
     return out
 
 
+@guarded
+def rule_rawarg(repo):
+    """The translation coupling of se3 / sim3 Exp (so3_Jl(phi), rxso3_Ws(phi, sigma)) is NOT periodic in the rotation angle: only the rotation Exp(phi) is.  The
+    helpers therefore receive the rotation block of the argument as it was given; a block wrapped to the principal turn (remainder / fmod / % 2 pi, Log(Exp(.)),
+    atan2, a where() between the two) gives the same quaternion and another translation for every |phi| >= 2 pi."""
+    res = RuleResult('C01.RAWARG', 'se3_Exp / sim3_Exp hand the coupling helpers (so3_Jl, rxso3_Ws) the rotation (and scale) block of the argument as given - not wrapped to '
+                     'the principal turn, which leaves the quaternion and changes the translation', floor=2)
+    WRAP = {'remainder', 'fmod', 'atan2', 'Log', 'Exp', 'where', 'normalize', 'clamp', 'clamp_', 'round', 'floor'}
+    for q, helper in (('se3_Exp.forward', 'so3_Jl'), ('sim3_Exp.forward', 'rxso3_Ws')):
+        f = repo.func(OP, q)
+        inl = inline_straight(f.node)
+        calls = [c for st, env in inl.log for c in ast.walk(getattr(st, 'value', None) or ast.Pass()) if isinstance(c, ast.Call) and (dotted(c.func) or '') == helper]
+        if not calls:
+            raise AnalysisError('C01.RAWARG: %s no longer calls %s' % (q, helper))
+        for c in calls:
+            a = inl.value(c.args[0])
+            wraps = [x for x in ast.walk(a) if (isinstance(x, ast.Call) and (dotted(x.func) or (x.func.attr if isinstance(x.func, ast.Attribute) else '')).split('.')[-1] in WRAP)
+                     or (isinstance(x, ast.BinOp) and isinstance(x.op, ast.Mod))]
+            res.inst({'function': f.fq, 'helper': helper, 'argument': src(a)[:70], 're-parametrised': bool(wraps)}, (f.fq, helper, src(c.args[0])[:30]))
+            if wraps:
+                res.add(Finding('C01.RAWARG', f, '%s receives `%s`: the rotation block is re-parametrised (`%s`) before the translation coupling is formed; the coupling is not '
+                                'periodic in the angle, so Exp differs from the matrix exponential for every rotation of one turn or more' % (helper, src(a)[:60], src(wraps[0])[:40]),
+                                node=c, construct='coupling argument re-parametrised|' + helper))
+    return res
+
+
 def rules(repo, tier):
     from ..memo import rule_memo
     from ..optional import rule_optional
@@ -121,7 +147,7 @@ def rules(repo, tier):
     from ..docsig import rule_docsig
     from ..axisdefault import rule_axisdefault
     from ..effects import rule_pure
-    return [__import__('sa.rules.c06', fromlist=['x']).rule_postcheck(repo, tier, 'C01.POSTCHK')] + list(_rules_core(repo, tier)) + [rule_pure(repo, 'C01.PURE', 'Exp and its coefficient helpers write neither into their argument nor into tensors that '
+    return [__import__('sa.rules.c06', fromlist=['x']).rule_postcheck(repo, tier, 'C01.POSTCHK')] + __import__('sa.core', fromlist=['x']).reid([__import__('sa.rules.c03', fromlist=['x']).rule_sb(repo), __import__('sa.rules.c03', fromlist=['x']).rule_dt(repo)], 'C01') + [__import__('sa.rules.c06', fromlist=['x']).rule_bcast(repo, tier, 'C01')] + [rule_rawarg(repo)] + list(_rules_core(repo, tier)) + [rule_pure(repo, 'C01.PURE', 'Exp and its coefficient helpers write neither into their argument nor into tensors that '
                                                       'outlive the call (cached limits / constants filled in place): the value for one input never leaks into a later call',
                                                       EXP_TARGETS + [(OP, 'se3_Exp.forward'), (OP, 'sim3_Exp.forward'), (OP, 'rxso3_Exp.forward')]), rule_memo(repo, 'C01.MEMO', 'history independence: nothing computed from the contents of a tensor argument is kept '
                                                       'under the identity, address or version of that tensor, in module-level storage, or published from a generator '
